@@ -56,7 +56,7 @@ def run(tier, seed, replay=None):
     # 2. writer schedules from ProviderCache.tla
     cfgs = c06.QUICK if tier == "quick" else c06.THOROUGH
     if tier == "quick":
-        cfgs = {"A-versions": c06.consts(MaxEnv=0, MaxTicks=0), "B-env": cfgs["B-env"], "F-merge": cfgs["F-merge"], "D-reappear": cfgs["D-reappear"]}
+        cfgs = {"A-versions": c06.consts(MaxEnv=0, MaxTicks=0), "B-env": cfgs["B-env"], "F-merge": cfgs["F-merge"], "D-reappear": cfgs["D-reappear"], "G-stale": cfgs["G-stale"]}
     else:
         # the long timed single-provider histories (TTL expiry cycles) belong to C06; readers add nothing there but hours
         cfgs = {k: v for k, v in cfgs.items() if k not in ("T5-reappear", "T2-ttl3")}
